@@ -359,6 +359,16 @@ lyd_validate_autodel_node_del(struct lyd_node **first, struct lyd_node *del, con
 }
 
 /**
+ * @brief Transient data node flag used only while "when" conditions are being resolved in ::lyd_validate_unres().
+ *
+ * The node had ::LYD_WHEN_TRUE set when the resolution started (from a previous validation or because it was
+ * created as an implicit node) so it is auto-deleted instead of causing an error in case its "when" is false now.
+ * The ::LYD_WHEN_TRUE flag itself is cleared for as long as the "when" is not evaluated again so that conditions
+ * of other nodes referencing the node are postponed (LY_EINCOMPLETE) instead of using its out-of-date state.
+ */
+#define LYD_VAL_WHEN_WAS_TRUE 0x80000000
+
+/**
  * @brief Evaluate when conditions of collected unres nodes.
  *
  * @param[in,out] tree Data tree, is updated if some nodes are autodeleted.
@@ -397,7 +407,7 @@ lyd_validate_unres_when(struct lyd_node **tree, const struct lys_module *mod, st
         if (!r) {
             if (disabled) {
                 /* when false */
-                if (node->flags & LYD_WHEN_TRUE) {
+                if (node->flags & LYD_VAL_WHEN_WAS_TRUE) {
                     /* autodelete */
                     count = node_when->count;
                     lyd_validate_autodel_node_del(tree, node, mod, 1, NULL, node_when, node_types, diff);
@@ -416,6 +426,7 @@ lyd_validate_unres_when(struct lyd_node **tree, const struct lys_module *mod, st
                 }
             } else {
                 /* when true */
+                node->flags &= ~LYD_VAL_WHEN_WAS_TRUE;
                 node->flags |= LYD_WHEN_TRUE;
             }
 
@@ -482,6 +493,15 @@ lyd_validate_unres(struct lyd_node **tree, const struct lys_module *mod, enum ly
         /* evaluate all when conditions */
         uint32_t prev_count;
 
+        /* all these conditions are to be evaluated (again), until then the nodes must not be used for evaluating
+         * conditions of other nodes, only remember they can be auto-deleted */
+        for (i = 0; i < node_when->count; ++i) {
+            if (node_when->dnodes[i]->flags & LYD_WHEN_TRUE) {
+                node_when->dnodes[i]->flags &= ~LYD_WHEN_TRUE;
+                node_when->dnodes[i]->flags |= LYD_VAL_WHEN_WAS_TRUE;
+            }
+        }
+
         do {
             prev_count = node_when->count;
             r = lyd_validate_unres_when(tree, mod, node_when, val_opts, when_xp_opts, node_types, diff);
@@ -534,6 +554,15 @@ lyd_validate_unres(struct lyd_node **tree, const struct lys_module *mod, enum ly
     }
 
 cleanup:
+    if (node_when) {
+        /* restore the flags of nodes whose conditions were not resolved (error) */
+        for (i = 0; i < node_when->count; ++i) {
+            if (node_when->dnodes[i]->flags & LYD_VAL_WHEN_WAS_TRUE) {
+                node_when->dnodes[i]->flags &= ~LYD_VAL_WHEN_WAS_TRUE;
+                node_when->dnodes[i]->flags |= LYD_WHEN_TRUE;
+            }
+        }
+    }
     return rc;
 }
 
